@@ -1,6 +1,7 @@
 from circus.commands.base import Command
 from circus.commands.util import convert_option, validate_option
 from circus.exc import ArgumentError, MessageError
+from circus.util import to_gid, to_uid
 
 
 class Set(Command):
@@ -66,6 +67,12 @@ class Set(Command):
 
     def execute(self, arbiter, props):
         watcher = self._get_watcher(arbiter, props.pop('name'))
+
+        # every option is checked against the watcher before any of them is
+        # applied: a request that is refused must not change anything
+        for key, val in props.get('options', {}).items():
+            self._check_applicable(watcher, key, val)
+
         action = 0
         for key, val in props.get('options', {}).items():
             if key == 'hooks':
@@ -81,6 +88,23 @@ class Set(Command):
                 action = 1
         # trigger needed action
         return watcher.do_action(action)
+
+    def _check_applicable(self, watcher, key, val):
+        try:
+            if key == 'numprocesses':
+                if getattr(watcher, 'singleton', False) and int(val) > 1:
+                    raise ValueError('Singleton watcher has a single process')
+            elif key == 'uid':
+                to_uid(val)
+            elif key == 'gid':
+                to_gid(val)
+            elif key.startswith(('stdout_stream.', 'stderr_stream.')):
+                conf = getattr(watcher, key.split('.', 1)[0] + '_conf', {})
+                if conf is None:
+                    raise ValueError('%r: the watcher has no such stream'
+                                     % key)
+        except (ValueError, AttributeError, KeyError, TypeError) as e:
+            raise MessageError(str(e))
 
     def validate(self, props):
         super(Set, self).validate(props)
